@@ -657,6 +657,8 @@ func checkC19(c *Ctx) {
 	checkSetFlagPairing(c, m, fmtFns, parseFns, "C19.R6")
 	checkRewriteValidateRestore(c, "C19.R7")
 	checkFormatterWithholdsNothing(c, m, fmtFns, compFns, "C19.R8")
+	c.Rule("C19.R9", "the formatter writes every character it was given: no rune is narrowed to a byte in the code reachable from Format unless a dominating test established that it is ASCII")
+	checkNoRuneNarrowing(c, "C19.R9")
 }
 
 // ---------------------------------------------------------------------------
